@@ -7,6 +7,8 @@ import (
 	"crypto"
 	"crypto/rand"
 	"crypto/rsa"
+	"fmt"
+	"sync"
 	"time"
 
 	"gitee.com/Trisia/gotlcp/dtlcp"
@@ -24,6 +26,120 @@ func newCaches(stack string) (client, server any) {
 		return dtlcp.NewLRUSessionCache(8), dtlcp.NewLRUSessionCache(8)
 	}
 	return tlcp.NewLRUSessionCache(8), tlcp.NewLRUSessionCache(8)
+}
+
+// raceCache: a client SessionCache (the built-in LRU behind a thin wrapper, supplied through
+// the public Config) with which the driver plays the other users of a shared cache: they store
+// enough sessions of their own to make the LRU evict everything it held — now, or at the moment
+// a lookup of the client has just been answered (after SessionCache.Get returned the session,
+// before the caller does anything with it).
+type raceCache interface {
+	evictAll()
+	armWindow()
+	resetStats()
+	stats() (hit, fired bool) // a lookup of the client found a session / the armed eviction happened
+	sessionMaster() []byte    // master secret of the most recently stored session (copy)
+}
+
+const raceCapacity = 4
+
+type raceCore struct {
+	mu         sync.Mutex
+	armed      bool
+	hit, fired bool
+	fillers    int
+}
+
+func (r *raceCore) armWindow()               { r.mu.Lock(); r.armed = true; r.mu.Unlock() }
+func (r *raceCore) resetStats()              { r.mu.Lock(); r.hit, r.fired = false, false; r.mu.Unlock() }
+func (r *raceCore) stats() (hit, fired bool) { r.mu.Lock(); defer r.mu.Unlock(); return r.hit, r.fired }
+
+// looked: a lookup was answered; reports whether the armed eviction is due now
+func (r *raceCore) looked(found bool) (evict bool) {
+	r.mu.Lock()
+	defer r.mu.Unlock()
+	if !found {
+		return false
+	}
+	r.hit = true
+	if r.armed {
+		r.armed, r.fired = false, true
+		return true
+	}
+	return false
+}
+
+func (r *raceCore) nextFillers() (from int) {
+	r.mu.Lock()
+	defer r.mu.Unlock()
+	from = r.fillers
+	r.fillers += raceCapacity
+	return from
+}
+
+func newRaceCache(stack string) (cache any, rc raceCache) {
+	if stack == "dtlcp" {
+		c := &dRaceCache{inner: dtlcp.NewLRUSessionCache(raceCapacity)}
+		return dtlcp.SessionCache(c), c
+	}
+	c := &tRaceCache{inner: tlcp.NewLRUSessionCache(raceCapacity)}
+	return tlcp.SessionCache(c), c
+}
+
+type tRaceCache struct {
+	raceCore
+	inner tlcp.SessionCache
+}
+
+func (c *tRaceCache) Get(k string) (*tlcp.SessionState, bool) {
+	s, ok := c.inner.Get(k)
+	if c.looked(ok && s != nil) {
+		c.evictAll()
+	}
+	return s, ok
+}
+func (c *tRaceCache) Put(k string, s *tlcp.SessionState) { c.inner.Put(k, s) }
+func (c *tRaceCache) evictAll() {
+	from := c.nextFillers()
+	for i := from; i < from+raceCapacity; i++ {
+		c.inner.Put(fmt.Sprintf("198.51.100.%d:443", i), tlcp.VerifNewSessionState(1000+i))
+	}
+}
+func (c *tRaceCache) sessionMaster() []byte {
+	s, ok := c.inner.Get("")
+	if !ok || s == nil {
+		return nil
+	}
+	_, _, _, m, _ := tlcp.VerifSessionInfo(s)
+	return append([]byte(nil), m...)
+}
+
+type dRaceCache struct {
+	raceCore
+	inner dtlcp.SessionCache
+}
+
+func (c *dRaceCache) Get(k string) (*dtlcp.SessionState, bool) {
+	s, ok := c.inner.Get(k)
+	if c.looked(ok && s != nil) {
+		c.evictAll()
+	}
+	return s, ok
+}
+func (c *dRaceCache) Put(k string, s *dtlcp.SessionState) { c.inner.Put(k, s) }
+func (c *dRaceCache) evictAll() {
+	from := c.nextFillers()
+	for i := from; i < from+raceCapacity; i++ {
+		c.inner.Put(fmt.Sprintf("198.51.100.%d:443", i), dtlcp.VerifNewSessionState(1000+i))
+	}
+}
+func (c *dRaceCache) sessionMaster() []byte {
+	s, ok := c.inner.Get("")
+	if !ok || s == nil {
+		return nil
+	}
+	_, _, _, m, _ := dtlcp.VerifSessionInfo(s)
+	return append([]byte(nil), m...)
 }
 
 // ---------------------------------------------------------------------------- TLCP
@@ -97,6 +213,9 @@ func (t *tScript) PeerFinishedOK() bool       { return t.s.PeerFinishedOK }
 func (t *tScript) WriteProtected() bool       { return t.s.WriteProtected() }
 func (t *tScript) HasMaster() bool            { return len(t.s.Master()) > 0 }
 func (t *tScript) HeaderLen() int             { return 4 }
+func (t *tScript) OfferedSessionID() []byte   { return t.s.OfferedSessionID() }
+func (t *tScript) SetResumeMaster(m []byte)   { t.s.ResumeMaster = m }
+func (t *tScript) Master() []byte             { return t.s.Master() }
 
 // ---------------------------------------------------------------------------- DTLCP
 
